@@ -2865,7 +2865,7 @@ fn c09(rng: &mut Rng, thorough: bool, _hints: &[Vec<String>], rep: &mut Report) 
         }
         let w0 = std::f64::consts::TAU * f0;
         let mut f = idsp::iir::Filter::<f64>::default();
-        crate::gen::coeff_setup(rng, &mut f, w0, shape, gain, shelf);
+        crate::gen::coeff_setup_f0(rng, &mut f, Some(f0), w0, shape, gain, shelf);
         let ba = crate::gen::coeff_build(&f, typ);
         let names = ["lowpass", "highpass", "bandpass", "allpass", "notch", "peaking", "lowshelf", "highshelf", "iho"];
         let inp = format!("Filter f0={} shape={:?} gain={} shelf={} .{}()", f0, shape, gain, shelf, names[typ as usize]);
